@@ -166,6 +166,11 @@ def run(ck):
                         a, b = json.dumps(v1, sort_keys=True), json.dumps(d2.value, sort_keys=True)
                         r["same"] = 1 if a == b and ok2 else 0
                         note = "" if r["same"] else f"decoded again as {b[:120]} {why2}"
+                        if r["same"] and isinstance(value, dict) and len(value) > 1:
+                            # a JSON object has no order: the same members listed the other way round encode to the same payload
+                            e3 = go(tools.encode_dpt_payload(EncodeDptPayloadInput(value=dict(reversed(list(value.items()))), value_type=vt)))
+                            if e3.payload != e1.payload:
+                                r["same"], note = 0, f"with its members in reverse order it encodes to {e3.payload} instead of {e1.payload}"
                     except ConversionError as exn:
                         r["out"], note = "encrefused", str(exn)[:150]
                     except Exception as exn:  # noqa: BLE001
